@@ -184,3 +184,15 @@ func verifPF(s string) float64 {
 	v, _ := strconv.ParseFloat(s, 64)
 	return v
 }
+
+// non-forking boolean connectives (plain && / || fork the symbolic executor)
+func verifAnd(a, b bool) bool     { return a && b }
+func verifOr(a, b bool) bool      { return a || b }
+func verifImplies(a, b bool) bool { return !a || b }
+func verifIteInt(c bool, a, b int) int {
+	if c {
+		return a
+	}
+	return b
+}
+func verifFloatBits(f float64) uint64 { return math.Float64bits(f) }
